@@ -21,6 +21,7 @@ from pathlib import Path
 from . import common, ninja_ref, projgen
 
 EMPTY_P: T.Dict[str, T.Any] = {'name': '', 'lang': '', 'layout': 'mirror', 'deflib': 'shared', 'targets': [], 'tests': [],
+                                'unity': 'off', 'unity_size': 4,
                                 'conf': [], 'options': [], 'installs': []}
 
 
@@ -31,15 +32,17 @@ def tlc_project(p: T.Optional[T.Dict[str, T.Any]]) -> T.Dict[str, T.Any]:
     ts = []
     for t in p['targets']:
         ts.append({k: t.get(k, []) for k in ('kind', 'name', 'subdir', 'sp', 'srcs', 'gen', 'genidx', 'genlist', 'link', 'bbd',
-                                             'install', 'outs', 'deps')})
+                                             'install', 'outs', 'deps', 'objs')})
     xs = []
     for x in p['tests']:
         xs.append({k: x[k] for k in ('name', 'exe', 'depends', 'args', 'sargs', 'bench', 'suite', 'env', 'sp', 'script')})
     return {'name': p['name'], 'lang': p['lang'], 'layout': p['layout'], 'deflib': p['deflib'], 'targets': ts, 'tests': xs,
+            'unity': p.get('unity', 'off'), 'unity_size': int(p.get('unity_size', 4)),
             'conf': [dict(c) for c in p.get('conf', [])],
             'options': [{'name': o['name'], 'type': o['type'], 'sp': o['sp']} for o in p.get('options', [])],
             'installs': [dict({k: it[k] for k in ('kind', 'subdir', 'sp', 'files', 'install_dir', 'tag', 'rename')},
-                              strip=bool(it.get('strip', False))) for it in p.get('installs', [])]}
+                              strip=bool(it.get('strip', False)), preserve=bool(it.get('preserve', False)))
+                         for it in p.get('installs', [])]}
 
 
 def rel_to(path: str, base: str) -> str:
